@@ -364,6 +364,9 @@ partial def memK (tab : CTab) : Node → List Rat → Option Bool
     match leafId 'C' nm with
     | some i => (tab.cs.lookup i).map (·.holds pt)
     | none =>
+    match leafId 'L' nm with
+    | some k => (tab.leaves.ctc.lookup k).map fun L => L.boxes.any (Oracle.inBox pt)
+    | none =>
       match nm, args with
       | "notin", [] =>
         match param.splitOn "/" with
@@ -371,10 +374,21 @@ partial def memK (tab : CTab) : Node → List Rat → Option Bool
           let i ← i.toNat?; let y ← parseItv y; let c ← tab.cs.lookup i
           pure (!Oracle.inItv (evalPoly c.poly pt) y)
         | _ => none
-      | "inv", [.mk l _ _] => do
-        let i ← param.toNat?; let c ← tab.cs.lookup i; let k ← leafId 'L' l
-        let L ← tab.leaves.ctc.lookup k
-        pure (L.boxes.any (Oracle.inBox [evalPoly c.poly pt]))
+      | "notinv", [] =>   -- vector-valued function (f_i, f_j) not in the box y
+        match param.splitOn "/" with
+        | [ids, y] =>
+          match ids.splitOn "." with
+          | [i, j] => do
+            let i ← i.toNat?; let j ← j.toNat?; let y ← parseBoxN 2 y
+            let ci ← tab.cs.lookup i; let cj ← tab.cs.lookup j
+            pure (!Oracle.inBox [evalPoly ci.poly pt, evalPoly cj.poly pt] y)
+          | _ => none
+        | _ => none
+      | "inv", [sub] => do   -- inverse image of the set of a contractor tree over the real line
+        let i ← param.toNat?; let c ← tab.cs.lookup i
+        memK tab sub [evalPoly c.poly pt]
+      | "id", [] => some true
+      | "empty", [] => some false
       | "compo", l => (l.mapM (memK tab · pt)).map (·.all id)
       | "union", l => (l.mapM (memK tab · pt)).map (·.any id)
       | "fix", [c] => memK tab c pt
@@ -394,6 +408,10 @@ partial def sepK (tab : CTab) : Node → List Rat → Option (Bool × Bool)
         | _ => (false, decide (v = 0)))
     | none =>
       match nm, args with
+      | "bndc", [] => do   -- SepBoundaryCtc(f = 0, membership predicate) for the set f <= 0
+        let i ← param.toNat?; let c ← tab.cs.lookup i
+        let v := evalPoly c.poly pt
+        pure (decide (v < 0), decide (v ≤ 0))
       | "sinv", [.mk l _ _] => do
         let i ← param.toNat?; let c ← tab.cs.lookup i; let k ← leafId 'S' l
         let (u, v) ← tab.leaves.sep.lookup k
